@@ -47,6 +47,15 @@ def _a_function():
 # but is not iterable itself), an instance whose class disables iteration, a
 # function, a type
 NON_ITERABLES = [5, 2.5, None, list, _NoIter(), _a_function, dict, object]
+# a new Stream derived from a live one by an operator / attribute access /
+# element call: the old object is consumed by it (its iterator is shared)
+DERIVE = [("-s", lambda s: -s, lambda x: -x),
+          ("s+100000", lambda s: s + 100000, lambda x: x + 100000),
+          ("2*s", lambda s: 2 * s, lambda x: 2 * x),
+          ("abs(s)", abs, abs),
+          ("s.real", lambda s: s.real, lambda x: x),
+          ("s.conjugate()", lambda s: s.conjugate(), lambda x: x),
+          ("s//1", lambda s: s // 1, lambda x: x // 1)]
 RAW_ITERABLES = ["list", "tuple", "str", "range", "gen", "dict", "bytes"]
 
 
@@ -179,13 +188,13 @@ class C03(Property):
                              (5, "copy"), (2, "tee"), (3, "thub"),
                              (4, "hub_use"), (2, "next_it"), (2, "for"),
                              (1, "thub_scalar"), (1, "rewrap"),
-                             (1, "thub_raw")])
+                             (1, "thub_raw"), (2, "derive")])
       if odd and op == "filter":
         # items that are None / falsy / not numbers: only filter(None) and
         # filter(bool) make sense on them
         ops.append([op, len(PREDS) - 1 - W.choose("oddp", 2)])
         continue
-      if odd and op == "map":
+      if odd and op in ("map", "derive"):
         op = "copy"
       if op in ("take", "peek"):
         ctor = W.weighted("ctor", [(8, None), (1, "tuple"), (1, "set"),
@@ -210,6 +219,8 @@ class C03(Property):
         ops.append([op, W.choose("how", 2)])
       elif op == "for":
         ops.append([op, W.choose("k", 5)])
+      elif op == "derive":
+        ops.append([op, W.choose("d", len(DERIVE))])
       elif op == "thub_raw":
         kinds = [i for i, k in enumerate(RAW_ITERABLES)
                  if has_str or k != "str"]
@@ -801,6 +812,25 @@ class _Ctx(object):
     nh = self.add("hub", got[1], model, uses=n, gen=h.gen + 1,
                   family=h.family)
     self.events.append("thub(h%d, %d) -> h%d" % (h.hid, n, nh.hid))
+
+  def op_derive(self, h, op):
+    nm, real_f, model_f = DERIVE[op[1] % len(DERIVE)]
+    if h.kind == "hub" and nm.startswith("s."):
+      # attribute access / element call on a hub object reads the hub's raw
+      # data lazily instead of taking one of its uses: what that means for
+      # the n uses is not defined by the statement - operators only
+      nm, real_f, model_f = DERIVE[0]
+    ok, model = self._source_of(h, "derive")
+    got = self.call("derive", lambda: real_f(h.real))
+    if not ok:
+      self.expect("hub-derive", got, ("raise", "IndexError"),
+                  "%s of exhausted hub h%d" % (nm, h.hid))
+      return
+    if got[0] != "ok" or not isinstance(got[1], self.p.Stream):
+      raise _Mismatch("derive:return", "%s of h%d gave %r" % (nm, h.hid, got))
+    model.rebase(MapSeq(model_f, model.rest()))
+    nh = self.add("stream", got[1], model, gen=h.gen + 1, family=h.family)
+    self.events.append("%s of h%d -> h%d" % (nm, h.hid, nh.hid))
 
   def op_rewrap(self, h, op):
     # Stream(stream): a new Stream over the same data, the old one retired
